@@ -392,7 +392,7 @@ func init() {
 		base := gen.Pick(r, "1.0", "1", "2.3.4", "1.0.0", "0.9", "10")
 		out := []string{base}
 		tails := []string{"a", "+", ".", "~", "~~", "~a", "a0", "a1", "0", "00", ".0", "+b1", "~rc1", "-1", "-0", "-1~bpo1", "-1+b1", "+dfsg-1", "a~", ".a", "+a", "~+", "ab", "a.", "a+", "a~1",
-			"99999999999999999999", "099999999999999999999", "100000000000000000000", ".99999999999999999999", ".0100000000000000000000", "-1-1", "-a-1", "-0-0", "+-1", "A", "Z", "z", "aA"}
+			"99999999999999999999", "099999999999999999999", "100000000000000000000", ".99999999999999999999", ".0100000000000000000000", "-1-1", "-a-1", "-0-0", "+-1", "A", "Z", "z", "aA", "-+1", "-+0", "-+2", "-2", "-10", "-+10", "-+", "-+a", "-1+", "-0x1", "-1e1"}
 		if r.IntN(3) == 0 { // same-length big-number neighbours in upstream and revision
 			for _, bn := range gen.BigFamily(r, 5) {
 				out = append(out, base+"."+bn, bn, base+"-"+bn, bn+"+b1", base+"."+bn+"~rc1")
